@@ -456,7 +456,11 @@ func runCheck(prop string, ps *PropSpec, tier, repo string, seed int, verbose bo
 	var selfTest map[string]interface{}
 	if exit == 0 && selfTestEnabled(tier) {
 		selfTest = runSelfTest(prop, ps, repo, seed, p)
-		fmt.Printf("SELFTEST property=%s seeded %v/%v reported, mutants %v/%v reported (of %v tried)\n", prop, selfTest["seeded_reported"], selfTest["seeded_total"], selfTest["mutants_reported"], selfTest["mutants_compiled"], selfTest["mutants_tried"])
+		if e, bad := selfTest["error"]; bad {
+			fmt.Printf("SELFTEST property=%s not run: %v\n", prop, e)
+		} else {
+			fmt.Printf("SELFTEST property=%s seeded %v/%v reported, mutants %v/%v reported (of %v tried)\n", prop, selfTest["seeded_reported"], selfTest["seeded_total"], selfTest["mutants_reported"], selfTest["mutants_compiled"], selfTest["mutants_tried"])
+		}
 	}
 
 	// evidence
